@@ -85,7 +85,10 @@ func ParseManifest(b []byte) (*rpb.VMEndorsementMap, error) {
 }
 
 // OtherDigest is the firmware digest the concurrent writer's n-th entry carries.
-func OtherDigest(name string) []byte { d := sha512.Sum384([]byte("other firmware " + name)); return d[:] }
+func OtherDigest(name string) []byte {
+	d := sha512.Sum384([]byte("other firmware " + name))
+	return d[:]
+}
 
 // otherCommit models someone else committing an endorsement + manifest entry to the head.
 func (w *World) otherCommit() {
